@@ -73,10 +73,19 @@ Fixpoint mismatch_from (f : tcase -> bool) (i : N) (cs : list tcase) : list N :=
   end.
 Definition mismatch_ids := mismatch_from (check_with true) 0%N.
 
-(* verdict per case: 0 = the implementation agrees with the model (the repaired algorithm, which is goja's algorithm
-   since F16 195c9cc, F17 60d9770, F21 82237e3, F22 7d68b51); 1 = it disagrees *)
-Definition verdict (c : tcase) : N := if check_with true c then 0%N else 1%N.
+(* verdict per case: 0 = the implementation agrees with S (the repaired algorithm); 1 = it disagrees with S and is not
+   explained by I; 100 + mask = it disagrees with S, agrees with I (goja's algorithm on the current tree, [fixed = false])
+   and I ran into the recorded deviations in mask (16: F23).  F16, F17, F21, F22 are repaired in /repo: on those I = S
+   would be the honest model, so their former deviation ids (16, 21, 22) count as unexplained. *)
+Definition has (n : nat) (l : list nat) : bool := existsb (Nat.eqb n) l.
+Definition mask_of (d : list nat) : N :=
+  if has 16 d || has 21 d || has 22 d then 0%N else if has 23 d then 16%N else 0%N.
+Definition verdict (c : tcase) : N :=
+  if check_with true c then 0%N
+  else let r := run_both false c in
+       if check_run c r then (if N.eqb (mask_of (leaked (snd r))) 0 then 1 else 100 + mask_of (leaked (snd r)))%N
+       else 1%N.
 Definition verdicts (cs : list tcase) : list N := map verdict cs.
 
 (* (S, I) *)
-Definition expected (c : tcase) := (run_model true c, idle_full (final_state true c)).
+Definition expected (c : tcase) := (run_model true c, idle_full (final_state true c), run_model false c, leaked (final_state false c)).
